@@ -121,6 +121,110 @@ def run_one(name, keyalg):
         P.done(loop)
 
 
+
+# ------------------------------------------------------------------ method matrix: what the server offers x what the client holds
+KBD_MODES = [None, 'pw-prompt', 'code-prompt', 'two-prompts', 'no-echo-pw-prompt']
+
+
+def matrix_cases():
+    out = []
+    for kbd in KBD_MODES:
+        for srv_pw in (True, False):
+            for srv_pk in (True, False):
+                if not (kbd or srv_pw or srv_pk):
+                    continue
+                for cli_pw in (True, False):
+                    for cli_keys in ('none', 'good', 'wrong', 'wrong+good'):
+                        for order in (None, 'password,keyboard-interactive,publickey', 'keyboard-interactive,password,publickey'):
+                            out.append((kbd, srv_pw, srv_pk, cli_pw, cli_keys, order))
+    return out
+
+
+def matrix_run(case):
+    kbd, srv_pw, srv_pk, cli_pw, cli_keys, order = case
+    good, wrong = P.key('user-ssh-ed25519', 'ssh-ed25519'), P.key('user-wrong', 'ssh-ed25519')
+    log = []
+
+    class Srv(P.RecServer):
+        def password_auth_supported(self):
+            return srv_pw
+
+        def validate_password(self, username, password):
+            log.append('password')
+            return password == 'pw'
+
+        def kbdint_auth_supported(self):
+            return bool(kbd)
+
+        def get_kbdint_challenge(self, username, lang, submethods):
+            log.append('kbdint-challenge')
+            prompts = {'pw-prompt': [('Password:', False)], 'no-echo-pw-prompt': [('Enter your password: ', False)],
+                       'code-prompt': [('Verification code:', True)], 'two-prompts': [('Password:', False), ('Token:', True)]}[kbd]
+            return '', '', '', prompts
+
+        def validate_kbdint_response(self, username, responses):
+            log.append('kbdint-response')
+            if kbd in ('pw-prompt', 'no-echo-pw-prompt'):
+                return list(responses) == ['pw']
+            return False
+
+        def public_key_auth_supported(self):
+            return srv_pk
+    loop = P.fresh(0)
+    try:
+        env = {}
+        holder = {}
+
+        def mk():
+            holder['o'] = Srv(env)
+            return holder['o']
+        sopts = dict(server_factory=mk)
+        if srv_pk:
+            sopts['authorized_client_keys'] = asyncssh.import_authorized_keys(good.export_public_key('openssh').decode())
+        keys = {'none': None, 'good': [good], 'wrong': [wrong], 'wrong+good': [wrong, good]}[cli_keys]
+        copts = dict(password='pw' if cli_pw else None, client_keys=keys)
+        # order None: the library's own default order (the harness default is password only)
+        copts['preferred_auth'] = order or 'publickey,keyboard-interactive,password'
+        pair = P.Pair(loop, sopts=sopts, copts=copts, env=env)
+        if order is None:
+            pass
+        loop.flush_all()
+        w = pair.copt.waiter
+        ok = bool(w.done() and not w.cancelled() and w.exception() is None)
+        detail = None if ok else repr(w.exception() if w.done() else 'pending')
+        exc = loop.unretrieved()
+        return ok, detail, list(log), exc
+    finally:
+        P.done(loop)
+
+
+def matrix_worker(job):
+    acc = core.Acc()
+    for case in job:
+        kbd, srv_pw, srv_pk, cli_pw, cli_keys, order = case
+        want = (srv_pk and 'good' in cli_keys) or (srv_pw and cli_pw) or (kbd in ('pw-prompt', 'no-echo-pw-prompt') and cli_pw)
+        try:
+            ok, detail, log, exc = matrix_run(case)
+        except Exception as e:              # pylint: disable=broad-except
+            ok, detail, log, exc = None, repr(e), [], []
+        acc.add(core.digest(('matrix', case, ok)), transitions=1,
+                sample={'server_offers': {'kbdint': kbd, 'password': srv_pw, 'publickey': srv_pk}, 'client_holds': {'password': cli_pw, 'keys': cli_keys},
+                        'preferred_auth': order, 'admitted': ok, 'server_saw': log} if kbd == 'code-prompt' and srv_pw and cli_pw and not srv_pk and cli_keys == 'none' else None)
+        rep = {'kind': 'matrix', 'case': list(case)}
+        if ok is None:
+            acc.violation('auth:harness:real-client-matrix', detail, rep)
+        elif want and not ok:
+            acc.violation('auth:valid-credential-rejected:real-client:kbd=%s,pw=%s,pk=%s' % (kbd, srv_pw, srv_pk),
+                          'client holds password=%s keys=%s (preferred_auth=%r) and the server offers a method it is valid for, but connect failed: %s; server saw %r'
+                          % (cli_pw, cli_keys, order, detail, log), rep)
+        elif ok and not want:
+            acc.violation('auth:granted-without-credential:real-client:kbd=%s,pw=%s,pk=%s' % (kbd, srv_pw, srv_pk),
+                          'client holds password=%s keys=%s: admitted although no method accepts them; server saw %r' % (cli_pw, cli_keys, log), rep)
+        if exc:
+            acc.violation('auth:loop-exception:real-client-matrix', repr(exc[0].get('exception'))[:200], rep)
+    return acc
+
+
 def run(only=None):
     acc = core.Acc()
     algs = ['ssh-ed25519', 'ecdsa-sha2-nistp256', 'ssh-rsa']
@@ -135,4 +239,7 @@ def run(only=None):
             if not ok:
                 acc.violation('auth:valid-credential-rejected:real-client:%s' % label, detail,
                               {'kind': 'converse', 'name': label})
+    if not only:
+        cases = matrix_cases()
+        acc.merge(core.pmap(matrix_worker, [cases[i::16] for i in range(16)]))
     return acc
